@@ -597,6 +597,65 @@ pub open spec fn sdes_chunks(d: Seq<u8>, c: int, end: int) -> Option<Seq<int>>
     }
 }
 
+/// SDES bodies the property demands to be rejected: walking the chunks as the parser does, some chunk is one of the listed
+/// malformations (`chunk_must_reject`: an item overruns the data, a PRIV prefix overruns its item, null fill cut short or
+/// holding a non-zero octet)
+pub open spec fn sdes_must_reject(d: Seq<u8>, c: int, end: int) -> bool
+    decreases end - c,
+{
+    if c < 0 || c >= end || end > d.len() {
+        false
+    } else if chunk_must_reject(d.subrange(c, end)) {
+        true
+    } else {
+        match chunk_accept(d.subrange(c, end)) {
+            None => false,
+            Some((st, n)) => n > 0 && sdes_must_reject(d, c + n, end),
+        }
+    }
+}
+
+/// RFC-well-formed chunk lists are accepted chunk lists (same starts)
+pub proof fn lemma_rfc_sdes_chunks_accept(d: Seq<u8>, c: int, end: int)
+    ensures
+        rfc_sdes_chunks(d, c, end) is Some ==> sdes_chunks(d, c, end) == rfc_sdes_chunks(d, c, end),
+    decreases end - c,
+{
+    if !(c < 0 || c > end || end > d.len()) && c != end {
+        match rfc_chunk(d.subrange(c, end)) {
+            None => {},
+            Some((st, n)) => {
+                assert(chunk_accept(d.subrange(c, end)) == Some((st, n)));
+                if n > 0 {
+                    lemma_rfc_sdes_chunks_accept(d, c + n, end);
+                }
+            },
+        }
+    }
+}
+
+/// a body containing one of the listed malformations is not an accepted chunk list
+pub proof fn lemma_sdes_must_reject(d: Seq<u8>, c: int, end: int)
+    ensures
+        sdes_must_reject(d, c, end) ==> sdes_chunks(d, c, end) is None,
+    decreases end - c,
+{
+    if !(c < 0 || c >= end || end > d.len()) {
+        if chunk_must_reject(d.subrange(c, end)) {
+            assert(chunk_accept(d.subrange(c, end)) is None);
+        } else {
+            match chunk_accept(d.subrange(c, end)) {
+                None => {},
+                Some((st, n)) => {
+                    if n > 0 {
+                        lemma_sdes_must_reject(d, c + n, end);
+                    }
+                },
+            }
+        }
+    }
+}
+
 pub open spec fn sdes_body_end(s: Seq<u8>) -> int {
     s.len() - pad_count(s)
 }
